@@ -1418,7 +1418,8 @@ def handler_lag_probe(n_per_writer=450, busy_ms=3000):
     import threading
     cl = Client("api,handlers")
     try:
-        script = ('{ resume_from: "tail", run: {|frame| if $frame.topic == "slow" { sleep %dms }; '
+        # (with a heartbeat: synthetic xs.pulse frames queue up behind the real ones while the handler is busy)
+        script = ('{ resume_from: "tail", pulse: 400, run: {|frame| if $frame.topic == "slow" { sleep %dms }; '
                   'if $frame.topic != "trig" { return }; $frame.id } }' % busy_ms)
         hid = cl.append("h.register", body=script.encode())
         if cl.wait_topic("h.registered", after=hid or 0) is None:
